@@ -328,3 +328,90 @@ func init() {
 		return r
 	}
 }
+
+// ---- cron, templates, strings.Builder
+
+func init() {
+	intercepts[repoMod+"/internal/util.Next"] = func(ex *Exec, fr *Frame, a []Value, s ssa.Instruction) Value {
+		tt := ex.tt
+		ex.H.noteStub("util.Next (robfig/cron): uninterpreted next(t, cron) with next > t; parse failure nondeterministic")
+		cur, cron := a[0].(*Term), a[1].(*Term)
+		if !ex.branch(tt.UF("cron_valid", SBool, cron), "cron-valid") {
+			return &TupleV{vs: []Value{tt.BV(0, 64), ex.opaqueErr("cron: parse error")}}
+		}
+		n := tt.UF("cron_next", SBV64, cur, cron)
+		ex.addPC(tt.And(tt.SLt(cur, n), tt.SLt(n, tt.BV(1<<62, 64))))
+		return &TupleV{vs: []Value{n, nilErr()}}
+	}
+	intercepts[repoMod+"/internal/util.ParseCron"] = func(ex *Exec, fr *Frame, a []Value, s ssa.Instruction) Value {
+		tt := ex.tt
+		ex.H.noteStub("util.ParseCron (robfig/cron): uninterpreted validity")
+		if !ex.branch(tt.UF("cron_valid", SBool, a[0].(*Term)), "cron-valid") {
+			return &TupleV{vs: []Value{&IfaceV{}, ex.opaqueErr("cron: parse error")}}
+		}
+		return &TupleV{vs: []Value{&IfaceV{typ: ex.P.errorStringType(), v: &OpaqueV{kind: "cronschedule", data: a[0]}}, nilErr()}}
+	}
+	intercepts["html/template.New"] = func(ex *Exec, fr *Frame, a []Value, s ssa.Instruction) Value {
+		ex.H.noteStub("html/template: Parse forks {error, ok}; Execute writes an uninterpreted expansion (escaping invisible)")
+		return ex.opaquePtr("template", &tmplObj{})
+	}
+	intercepts["text/template.New"] = intercepts["html/template.New"]
+	parse := func(ex *Exec, fr *Frame, a []Value, s ssa.Instruction) Value {
+		t := ex.opaqueOf(a[0], "template")
+		text := a[1].(*Term)
+		t.data.(*tmplObj).text = text
+		if !ex.branch(ex.tt.UF("tmpl_valid", SBool, text), "template-parses") {
+			return &TupleV{vs: []Value{&PtrV{}, ex.opaqueErr("template: parse error")}}
+		}
+		return &TupleV{vs: []Value{a[0], nilErr()}}
+	}
+	intercepts["(*html/template.Template).Parse"] = parse
+	intercepts["(*text/template.Template).Parse"] = parse
+	must := func(ex *Exec, fr *Frame, a []Value, s ssa.Instruction) Value {
+		if iv, ok := a[1].(*IfaceV); ok && iv.typ != nil {
+			panic(ex.goPanic("template.Must: %s", ex.panicText(a[1])))
+		}
+		return a[0]
+	}
+	intercepts["html/template.Must"] = must
+	intercepts["text/template.Must"] = must
+	exec := func(ex *Exec, fr *Frame, a []Value, s ssa.Instruction) Value {
+		tt := ex.tt
+		t := ex.opaqueOf(a[0], "template").data.(*tmplObj)
+		w := a[1].(*IfaceV)
+		var id, ts *Term = tt.Str(""), tt.Str("")
+		if dv, ok := a[2].(*IfaceV); ok && dv.typ != nil {
+			if mv, ok := dv.v.(*MapV); ok && mv.m != nil && mv.m.sym {
+				id = tt.Select(mv.m.val, tt.Str("id"))
+				ts = tt.Select(mv.m.val, tt.Str("timestamp"))
+			}
+		}
+		if ex.branch(tt.UF("tmpl_exec_fails", SBool, t.text), "template-exec-fails") {
+			return ex.opaqueErr("template: exec error")
+		}
+		out := tt.UF("tmpl_expand", SString, t.text, id, ts)
+		// write into the *strings.Builder
+		if p, ok := w.v.(*PtrV); ok && p.obj != nil {
+			if sv, ok := ex.peek(p).(*StructV); ok && len(sv.fs) == 2 {
+				old := ex.bytesOf(sv.fs[1])
+				sv.fs[1] = &BytesV{isNil: tt.Bool(false), s: tt.Concat(old.s, out)}
+				return nilErr()
+			}
+		}
+		panic(ex.unsupported("template.Execute into %s", describe(w.v)))
+	}
+	intercepts["(*html/template.Template).Execute"] = exec
+	intercepts["(*text/template.Template).Execute"] = exec
+	intercepts["(*strings.Builder).String"] = func(ex *Exec, fr *Frame, a []Value, s ssa.Instruction) Value {
+		sv := ex.peek(ex.ptr(a[0])).(*StructV)
+		return ex.bytesOf(sv.fs[1]).s
+	}
+	intercepts["(*strings.Builder).WriteString"] = func(ex *Exec, fr *Frame, a []Value, s ssa.Instruction) Value {
+		sv := ex.peek(ex.ptr(a[0])).(*StructV)
+		old := ex.bytesOf(sv.fs[1])
+		sv.fs[1] = &BytesV{isNil: ex.tt.Bool(false), s: ex.tt.Concat(old.s, a[1].(*Term))}
+		return &TupleV{vs: []Value{ex.strLenBV(a[1].(*Term)), nilErr()}}
+	}
+}
+
+type tmplObj struct{ text *Term }
